@@ -66,7 +66,10 @@ ASSUMPTIONS = [
 TECHNIQUE = ("Coq proof (exit contract over the variant table regenerated from the source; whole-parse soundness of "
              "every error kind for class plain by one invariant-carrying traversal of the parser model "
              "(ParseProofs/KindSound.v) on top of the per-site soundness/completeness theorems; suggestions subset "
-             "theorems for every similarity function) + extracted-model/implementation correspondence + python fault oracle")
+             "theorems for every similarity function; fourth pass: no-spurious-rejection as an independent theorem -- "
+             "declarative rules on the denotation of a rendered invocation, success of the fold of react by an invariant "
+             "(ParseProofs/NoSpurious*.v), composed with C02's un-parser theorem, C06's defaults frame and C03's validator "
+             "completeness) + extracted-model/implementation correspondence + python fault oracle")
 LEVEL_TEXT = ("Machine-checked theorems (Coq 8.16, closed under the global context): the kind -> stream -> exit-code "
               "table of the model equals the table regenerated from error/kind.rs, error/mod.rs and util/mod.rs on every "
               "run and satisfies the exit contract for all variants; verify_num_args rejects exactly the counts outside "
@@ -93,15 +96,37 @@ LEVEL_TEXT = ("Machine-checked theorems (Coq 8.16, closed under the global conte
               "the two validator kinds likewise.  Proved through a loop invariant (C10_loop_invariant: every loop and "
               "matcher state) lifted over the subcommand recursion (C10_level_sites); C10_accepted_faithful: the explicit "
               "entries of an accepted level are accounted for by the line/environment; C10_unbroken_accepted: a line for "
-              "which no error is justified is accepted (contrapositive joined with C01 totality).  The model is tied to "
+              "which no error is justified is accepted (contrapositive joined with C01 totality).  Fourth pass: "
+              "C10_no_spurious_reject as an INDEPENDENT statement -- for every valid definition and every rendered invocation "
+              "tree of C02's lifted class (wfx_inv: exact keys, flags, clusters, all option spellings incl. require_equals, "
+              "terminators, hyphen/negative-number option values, delimiters, positional runs, subcommand trees, globals) "
+              "whose levels declare no environment values (lvl_class), if at every level (a) every occurrence's value count is "
+              "inside the argument's range, (b) every stored value (pieces at the delimiter = C14 SplitSpec, default-missing "
+              "values, flag literals) is in the parser language in_lang, (h) the action stores, (d) no Set-like argument "
+              "without self-override occurs while C07's fold still holds it, (e) declared defaults are in the language, and "
+              "(c) EVERY matcher that reports the denotation (per argument the groups of C07's fold, explicit, with the "
+              "argument's ignore_case flag; a group id only if a member occurred) satisfies C03's declarative Relations and "
+              "the level is not subcommand_required / empty under arg_required_else_help, then parse_top (bin :: render_inv i) "
+              "= Ok (C10_no_spurious_reject; per level C10_level_accepted, per occurrence C10_occurrence_accepted; the matcher "
+              "a level ends in reports its denotation: C10_final_matcher_reports).  No parser function occurs in a rule.  "
+              "Converse: a rejected rendered line breaks a rule (C10_rejected_breaks_rule) and the kind says which side: if "
+              "(a)(b)(d)(h)(e) hold everywhere the error has a validator kind, i.e. names (c) (C10_rejection_names_relations); "
+              "for one occurrence a count kind means not (a), ArgumentConflict a stored non-self-overriding Set-like argument "
+              "(not (d)), a value kind not (b), DisplayHelp/Version not (h) (C10_occurrence_rejection_names_rule).  "
+              "On levels without groups rule (c) is decided by the validator's answer on the denotation's matcher "
+              "(C10_relations_read, C10_reports_determine, C10_relations_rule_decide/_refute).  Non-vacuity "
+              "(`prog --req A -n 300 -vv --mu a,b c -x F run --key=K`) and one necessity witness per rule (the named rule "
+              "fails, the others hold, rejected with the kind that names it: C10_rule_*_necessary); the nine lines are corpus "
+              "cases, so the crate answers as the theorems state on every run.  The model is tied to "
               "clap_builder by running extracted model and real crate on the same generated cases on every check; an "
               "independent python oracle (fault annotations, exit contract, existence of suggested names) runs on the "
               "implementation's output alone.")
 LEVEL_NOTE = ("Trusted: Coq kernel, extraction, OCaml drivers, Rust harness, generators, table translator; strsim::jaro "
               "not modelled (parametric theorems).  Not proved: the converse inclusion (every argument named by a token has "
               "an explicit entry -- false as stated: overrides remove entries, a token that names an argument can be a value "
-              "of another); an independent grammar of fault-free lines (no-spurious-rejection is proved per site and as the "
-              "contrapositive of C10_kind_sound; the round trip of rendered invocations stays with the faultfree stream); "
+              "of another); no-spurious-rejection outside C02's lifted class or with environment values, values after `--`, "
+              "and the decision of rule (c) on levels with groups (the rule itself is stated for every graph) stay with the "
+              "faultfree stream; by-kind attribution among the occurrence rules at parse_top level is C10_kind_sound's; "
               "commands with short flag subcommands (outside class plain; C01 finding).")
 
 HELPVER = ("DisplayHelp", "DisplayVersion")
